@@ -79,6 +79,22 @@ def run(ck, rng):
     if rc != 0 or rc2 != 0 or out2 != SAMPLE:
         ck.violation({"property": "C16", "kind": "cli", "class": "template", "why": "'gtree template | gtree output' does not print the documented sample tree",
                       "got": out2.decode("utf-8", "replace"), "exit": [rc, rc2]})
+    # input FILES of several sizes up to > 1 MiB, with roots in an order that only a sequential rendering keeps and
+    # with heading roots: the command must do exactly what the library does with the options its flags stand for
+    for nchild in (50, 3000, 24000):
+        bigdoc = b""
+        for r_ in range(3):
+            bigdoc += b"# root %d\n" % r_ + b"".join(b"- child number %06d of this root\n  - leaf\n" % c for c in range(nchild // 3))
+        bigdoc += b"- z last\n- a after z\n"
+        lres_big, _ = run_impl(exe, ["out d 0 0 %s - %s" % (bf_args(BF_DEFAULT), hx(bigdoc))], per_case_timeout=120.0)
+        want_big = unhx(lres_big[0].split(" ")[1][1:]) if lres_big[0].startswith("ok t") else None
+        rcb, outb, errb, _, _ = run_cli_doc(cli, ["output", "--file", "in.md"], b"", "pipe", [(b"in.md", "f")], bigdoc, "in.md")
+        ck.case("output --file in.md (%d bytes)" % len(bigdoc), True)
+        ck.count("kind:big_file")
+        if want_big is None or rcb != 0 or outb != want_big:
+            ck.violation({"property": "C16", "kind": "cli", "class": "big_file", "argv": "output --file in.md", "input_bytes": len(bigdoc),
+                          "exit": rcb, "stderr": errb[:300].decode("utf-8", "replace"), "library": lres_big[0][:120],
+                          "why": "for an input file of %d bytes the command's stdout / exit status differ from the library's result for the same document" % len(bigdoc)})
     lib_cases, jobs, model_cases = [], [], []
     for _ in range(n):
         kind = rng.choice(["output", "output", "output", "mkdir", "mkdir", "verify", "usage"])
